@@ -375,7 +375,7 @@ func c11RunHistory(b *c11Beh, rmu, stream, pipelined bool, baseline string) c11R
 				time.Sleep(3 * time.Millisecond)
 				break
 			}
-			c.SetReadDeadline(time.Now().Add(3 * time.Second)) //nolint:errcheck
+			c.SetReadDeadline(time.Now().Add(10 * time.Second)) //nolint:errcheck
 			var resp Response
 			if err := resp.Read(br); err != nil {
 				res.problems = append(res.problems, fmt.Sprintf("no response to request %d (%s): %v", k, kind, err))
@@ -412,7 +412,7 @@ func c11RunHistory(b *c11Beh, rmu, stream, pipelined bool, baseline string) c11R
 	ln.Close()
 	select {
 	case <-serveDone:
-	case <-time.After(3 * time.Second):
+	case <-time.After(15 * time.Second):
 		res.problems = append(res.problems, "Serve did not return")
 	}
 	return res
